@@ -134,6 +134,7 @@ def main():
     ap.add_argument("--per-fn", type=int, default=6)
     ap.add_argument("--props", default="")
     ap.add_argument("--jobs", type=int, default=6)
+    ap.add_argument("--fns", default="", help="comma separated qualified names: only these functions")
     ap.add_argument("--out", default=os.path.join(os.path.dirname(os.path.abspath(__file__)), "MUTATION_REPORT.md"))
     a = ap.parse_args()
     from pyvc.run import load_contracts
@@ -148,6 +149,8 @@ def main():
         if not c.verify or c.file.startswith("verif:") or getattr(c, "lemma", False):
             continue
         if props and not (set(props) & set(c.props)):
+            continue
+        if a.fns and q not in a.fns.split(","):
             continue
         fn, mod, _ = src.find(c)
         text = open(os.path.join("/repo", c.file)).read()
